@@ -848,6 +848,7 @@ impl OrdSpecImpl for Version { open spec fn obeys_cmp_spec() -> bool { true } op
         g.emit(mod, head + '    {\n        broadcast use winnow_defs, grammar_defs, def_range_set_reads_intro;\n        let mut input = text;' + rest + '\n}\n')
     g.unit('Range::parse_str', u_range_parse)
     g.emit('m_vprops', P('vprops.rs'))
+    g.emit('m_rprops', P('rprops.rs'))
     g.emit('m_vprops', P('vcomplete.rs'))
     g.emit('m_vprops', P('vsound.rs'))
 
